@@ -226,35 +226,56 @@ theorem producer_skips_blocked (set : List Raw) (wf : WF set) (ts : List TxV)
   simp only [producerTakes, Bool.not_eq_true', List.any_eq_false] at h
   exact absurd hc (by simpa using h t ht)
 
-/-- **pool side, partial**: at every height (no activation gate) a submission that reached the blacklist check is
-accepted only if none of the *submitted* transactions (the transaction, every member of a group, a delayed
-transaction) touches a blacklisted account. The added restriction compared with the full statement: for a
-proxy-exec submission this speaks about the outer transaction only. -/
-theorem pool_rejects_always_partial (set : List Raw) (wf : WF set) (ts : List (TxV × Bool)) (base : PoolRes)
-    (h : poolSubmit set ts true base = .accepted) : ∀ p ∈ ts, ¬ Touches set p.1 := by
-  have key : ∀ l : List (TxV × Bool), (∃ p ∈ l, Touches set p.1) → ∃ r, poolMembers set l = some r ∧ r ≠ .accepted := by
+/-- **pool side**: at every height (no activation gate) a submission that reached the blacklist check is accepted
+only if none of the submitted transactions — the transaction, every member of a group — touches a blacklisted
+account, and, for every member that is a proxy-exec transaction (`PoolTx.inner = some t`: Ethereum sign id, `To` =
+`exec.proxyExecAddress`, real executor `evm`, payload `Para` decodes as a transaction), neither does the inner
+transaction that will really be executed. -/
+theorem pool_rejects_always (set : List Raw) (wf : WF set) (ts : List PoolTx) (base : PoolRes)
+    (h : poolSubmit set ts true base = .accepted) :
+    ∀ m ∈ ts, ¬ Touches set m.outer ∧ ∀ t, m.inner = some t → ¬ Touches set t := by
+  have key : ∀ l : List PoolTx, (∃ m ∈ l, Touches set m.outer ∨ ∃ t, m.inner = some t ∧ Touches set t) →
+      ∃ r, poolMembers set l = some r ∧ r ≠ .accepted := by
     intro l
     induction l with
-    | nil => rintro ⟨p, hp, _⟩; simp at hp
+    | nil => rintro ⟨m, hm, _⟩; simp at hm
     | cons q rest ih =>
-      obtain ⟨t, a⟩ := q
-      rintro ⟨p, hp, ht⟩
+      rintro ⟨m, hm, ht⟩
       simp only [poolMembers]
-      cases a with
+      cases ha : q.addrOk with
       | false => exact ⟨.other, by simp, by simp⟩
       | true =>
         simp only [Bool.not_true, Bool.false_eq_true, if_false]
-        by_cases hc : (core set t).isSome = true
+        by_cases hc : (core set q.outer).isSome = true
         · exact ⟨.blocked, by simp [hc], by simp⟩
         · simp only [hc, Bool.false_eq_true, if_false]
-          apply ih
-          rcases List.mem_cons.mp hp with e | e
-          · subst e; exact absurd ((core_iff_touches set wf t).mpr ht) hc
-          · exact ⟨p, e, ht⟩
-  intro p hp htouch
-  obtain ⟨r, hr, hne⟩ := key ts ⟨p, hp, htouch⟩
-  simp [poolSubmit, hr] at h
-  exact hne h
+          by_cases hi : innerHit set q = true
+          · exact ⟨.blocked, by simp [hi], by simp⟩
+          · simp only [hi, Bool.false_eq_true, if_false]
+            apply ih
+            rcases List.mem_cons.mp hm with e | e
+            · subst e
+              rcases ht with ht | ⟨t, hti, ht⟩
+              · exact absurd ((core_iff_touches set wf _).mpr ht) hc
+              · simp only [innerHit, hti] at hi
+                exact absurd ((core_iff_touches set wf t).mpr ht) hi
+            · exact ⟨m, e, ht⟩
+  intro m hm
+  have hno : ¬ (Touches set m.outer ∨ ∃ t, m.inner = some t ∧ Touches set t) := by
+    intro ht
+    obtain ⟨r, hr, hne⟩ := key ts ⟨m, hm, ht⟩
+    simp [poolSubmit, hr] at h
+    exact hne h
+  exact ⟨fun x => hno (Or.inl x), fun t ht x => hno (Or.inr ⟨t, ht, x⟩)⟩
+
+/-- non-vacuity: a clean proxy-exec submission is accepted, one whose inner recipient is listed is blocked. -/
+def exOuter : TxV := { sender := "0x1111111111111111111111111111111111111111".toList, to := "0x0000000000000000000000000000000000200005".toList, realTo := "0x0000000000000000000000000000000000200005".toList, evm := none }
+def exInnerClean : TxV := { sender := "0x1111111111111111111111111111111111111111".toList, to := "0x2222222222222222222222222222222222222222".toList, realTo := "0x2222222222222222222222222222222222222222".toList, evm := none }
+def exInnerDirty : TxV := { sender := "0x1111111111111111111111111111111111111111".toList, to := "0x0707070707070707070707070707070707070707".toList, realTo := "0x0707070707070707070707070707070707070707".toList, evm := none }
+example :
+    poolSubmit [List.replicate 20 (7 : UInt8)] [{ outer := exOuter, addrOk := true, inner := some exInnerClean }] true .accepted = .accepted ∧
+    poolSubmit [List.replicate 20 (7 : UInt8)] [{ outer := exOuter, addrOk := true, inner := some exInnerDirty }] true .accepted = .blocked := by
+  decide
 
 theorem delay_rejects_always (set : List Raw) (wf : WF set) (t : TxV) (h : delayTakes set t = true) :
     ¬ Touches set t := by
@@ -262,22 +283,14 @@ theorem delay_rejects_always (set : List Raw) (wf : WF set) (t : TxV) (h : delay
   have hc : (core set t).isSome = true := (core_iff_touches set wf t).mpr htouch
   simp [delayTakes, hc] at h
 
-/-- the statement the property asks of the pool, proxied transactions included: an accepted proxy-exec submission
-carries no blacklisted account in the outer NOR in the inner transaction. -/
-def PoolFullStatement : Prop :=
-  ∀ (set : List Raw) (_ : WF set) (outer inner : TxV) (base : PoolRes),
-    poolSubmit set [(outer, true)] true base = .accepted → ¬ Touches set outer ∧ ¬ Touches set inner
-
-/-- **the full pool statement is false of the code**: the pool looks at the submitted (outer) transaction only; a
-proxy-exec transaction whose inner recipient is blacklisted is accepted (and only rejected later, by the executor,
-when a block containing it is executed). Replayed on the implementation by the harness (known finding). -/
-theorem pool_full_false : ¬ PoolFullStatement := by
-  intro h
-  have hwf : WF [List.replicate 20 (7 : UInt8)] := by intro r hr; simp at hr; subst hr; rfl
-  let outer : TxV := { sender := "0x1111111111111111111111111111111111111111".toList, to := "0x0000000000000000000000000000000000200005".toList, realTo := "0x0000000000000000000000000000000000200005".toList, evm := none }
-  let inner : TxV := { sender := "0x1111111111111111111111111111111111111111".toList, to := "0x0707070707070707070707070707070707070707".toList, realTo := "0x0707070707070707070707070707070707070707".toList, evm := none }
-  have h1 := h [List.replicate 20 (7 : UInt8)] hwf outer inner .accepted (by decide)
-  apply h1.2
+/-- **regression witness for the defect repaired in /repo (fix 1445781)**: the pool as it was looked at the
+submitted (outer) transaction only — a proxy-exec transaction whose inner recipient is blacklisted was accepted
+(and only rejected later, by the executor, when a block containing it was executed); the repaired pool blocks it. -/
+theorem old_pool_admits_proxied_blocked :
+    poolSubmitPreFix [List.replicate 20 (7 : UInt8)] [{ outer := exOuter, addrOk := true, inner := some exInnerDirty }] true .accepted = .accepted ∧
+    poolSubmit [List.replicate 20 (7 : UInt8)] [{ outer := exOuter, addrOk := true, inner := some exInnerDirty }] true .accepted = .blocked ∧
+    Touches [List.replicate 20 (7 : UInt8)] exInnerDirty := by
+  refine ⟨by decide, by decide, ?_⟩
   exact ⟨List.replicate 20 (7 : UInt8), by simp, Or.inr (Or.inl (by decide))⟩
 
 end C31
